@@ -1514,11 +1514,13 @@ class ComputeGraph(MultiDiGraph):
             return label
         if label in self._node_names:
             n = self._node_names[label]
-            if n == 0:
-                label_new = f"{label}_v1"
-            else:
+            label_new = f"{label}_v{n + 1}"
+            # skip derived labels that are already taken, e.g. by a user variable that is itself called `x_v1`
+            while label_new in self._node_names:
+                n += 1
                 label_new = f"{label}_v{n + 1}"
-            self._node_names[label] += 1
+            self._node_names[label] = n + 1
+            self._node_names[label_new] = 0
         else:
             label_new = label
             self._node_names[label] = 0
